@@ -150,6 +150,12 @@ def gen_cases(ctx):
         cases.append(make_case(m, rng.choice(['1.0', '1.1']) if ctx.quick() else '1.0'))
         if not ctx.quick():
             cases.append(make_case(m, '1.1'))
+    # one group of three element leaves over {a,b} (65 536 models per version: sampled / thorough: 20 000)
+    occs3 = cm.OCCS
+    for i in range(1500 if ctx.quick() else 20000):
+        k = rng.choice(['seq', 'seq', 'choice'])
+        ps = [cm.E(rng.choice('ab'), rng.choice(occs3)) for _ in range(3)]
+        cases.append(make_case(cm.G(k, ps, rng.choice(occs3)), rng.choice(['1.0', '1.1'])))
     for i in range(250 if ctx.quick() else 4000):
         v = '1.1' if i % 2 else '1.0'
         cases.append(make_case(cm.random_model(rng, version=v, max_leaves=5), v))
